@@ -17,10 +17,18 @@ STATS = {"feas_calls": 0, "feas_time": 0.0, "prove_calls": 0,
 
 
 def feasible(assertions):
-    """True unless the conjunction is definitely unsat."""
+    """True unless the conjunction is definitely unsat.  Compound string / sequence terms are abstracted first (z3 5.1's
+    sequence solver was observed to answer `unsat` and then `unknown` on the same satisfiable query): a path is pruned only
+    when the abstracted condition, which is weaker, is already unsatisfiable."""
+    t0 = time.time()
+    try:
+        ab = abstract_opaque(list(assertions))
+    except z3.Z3Exception:
+        ab = None
+    if ab is not None:
+        assertions = ab[0]
     s = z3.Solver()
     s.set("timeout", FEAS_TIMEOUT_MS)
-    t0 = time.time()
     s.add(z3.And(assertions) if len(assertions) > 1 else assertions)
     r = s.check()
     STATS["feas_calls"] += 1
@@ -272,6 +280,19 @@ def check(assertions, want_model=True):
     STATS["prove_calls"] += 1
     STATS["prove_time"] += secs
     if r == z3.unsat:
+        if abs_pairs is not None:
+            # proved only with the sequence theory: accept it only if an independent solver process agrees
+            res2, raw2 = _external(["z3-new", f"-T:{EXT_TIMEOUT_S}"], s.to_smt2())
+            if res2 != "unsat":
+                res3, raw3 = _external(["/usr/bin/z3", f"-T:{EXT_TIMEOUT_S}"], s.to_smt2())
+                if res3 != "unsat":
+                    _count("seq-unconfirmed")
+                    if abs_model is not None:
+                        return Verdict("sat-abstract", "z3-inproc-abstracted", time.time() - t0, abs_model,
+                                       "in-process z3 says unsat with the sequence theory, the independent runs do not confirm it", abs_pairs)
+                    return Verdict("unknown", "none", time.time() - t0, None, "sequence-theory proof not confirmed by an independent solver run")
+            _count("z3-inproc+z3-cli(seq)")
+            return Verdict("unsat", "z3-inproc+z3-cli(seq)", time.time() - t0)
         _count("z3-inproc")
         return Verdict("unsat", "z3-inproc", secs)
     if r == z3.sat:
